@@ -9,9 +9,10 @@ used to compute an expected value.
 Grammar (S scalar, V vector, M matrix):
   S: var(name) elem(V,i) melem(M,i,j) const(kind,value) param(name) bin(op,S,S) un(f,S)
      vsum(V) vector_sum(V) dot(V,V,style) dotself(V,style) lincomb(coeffs,V,style) norm(V,ord,style)
-     quad(V,Q,style) msum(M) fro(M) trace(M,style)
+     quad(V,Q,style) msum(M) fro(M) trace(M,style) pysum(V) [builtin sum() over iteration] mflat(M,k) [M.flatten()[k]]
   V: view(key) [= env["views"][key], built once] vvar(name) slice(V,a,b,s) row(M,i,a,b,s) col(M,a,b,s,j) diag(M,style)
      vbin(op,V,operand,side) vneg(V) vfn(f,V) vpow(V,k) matvec(A,V,style) mvarvec(M,V) vexpr([S])
+     miter(M,axis,i,style) [i-th item of iterating a matrix variable: rows (iter / rows_iter) or columns (cols_iter)]
   M: mvar(name) T(M) msub(M,[a,b,s],[a,b,s]) mbin(op,M,operand,side) mneg(M)
   operand (vector): ["V",V] | ["num",kind,value] | ["arr",[..]] | ["list",[..]]
   operand (matrix): ["M",M] | ["num",kind,value] | ["arr2",[[..]]] | ["list2",[[..]]]
@@ -21,9 +22,9 @@ from __future__ import annotations
 import numpy as np
 
 S_KINDS = {"chain", "var", "elem", "melem", "const", "param", "vparam_elem", "bin", "un", "vsum", "vector_sum", "dot", "dotself",
-           "lincomb", "norm", "quad", "msum", "fro", "trace"}
+           "lincomb", "norm", "quad", "msum", "fro", "trace", "pysum", "mflat"}
 V_KINDS = {"view", "vvar", "slice", "row", "col", "diag", "vbin", "vneg", "vfn", "vpow", "matvec",
-           "mvarvec", "vexpr"}
+           "mvarvec", "vexpr", "miter"}
 M_KINDS = {"mvar", "T", "msub", "mbin", "mneg"}
 
 
@@ -74,12 +75,14 @@ def vsize(r, env):
         return mshape(r[1], env)[0]
     if k == "vexpr":
         return len(r[1])
+    if k == "miter":
+        return mshape(r[1], env)[1 if r[2] == "row" else 0]
     raise ValueError(k)
 
 
 def vclass(r):
     k = r[0]
-    if k in ("view", "vvar", "slice", "row", "col", "diag"):
+    if k in ("view", "vvar", "slice", "row", "col", "diag", "miter"):
         return "var"
     if k in ("vbin", "vneg", "matvec", "mvarvec", "vexpr"):
         return "expr"
@@ -218,6 +221,17 @@ class ElemAlg:
 
     def n_vector_sum(self, V):
         return self._fold(self.ev(V))
+
+    def n_pysum(self, V):
+        return self._fold(self.ev(V))
+
+    def n_mflat(self, M, k):
+        m = self.ev(M)
+        return [x for row in m for x in row][k]
+
+    def n_miter(self, M, axis, i, style):
+        m = self.ev(M)
+        return list(m[i]) if axis == "row" else [row[i] for row in m]
 
     def n_dot(self, A, B, style):
         a, b = self.ev(A), self.ev(B)
@@ -508,6 +522,17 @@ class BuildAlg:
         from optyx.core.vectors import vector_sum
         return vector_sum(self.ev(V))
 
+    def n_pysum(self, V):
+        return sum(self.ev(V))  # Python's builtin: iterates the vector object, starts from int 0
+
+    def n_mflat(self, M, k):
+        return self.ev(M).flatten()[k]
+
+    def n_miter(self, M, axis, i, style):
+        m = self.ev(M)
+        it = iter(m) if style == "iter" else m.rows_iter() if axis == "row" else m.cols_iter()
+        return list(it)[i]
+
     def n_dot(self, A, B, style):
         a, b = self.ev(A), self.ev(B)
         return a.dot(b) if style == "dot" else a @ b
@@ -751,6 +776,14 @@ class NumpyAlg:
         return np.sum(self.ev(V))
 
     n_vector_sum = n_vsum
+    n_pysum = n_vsum
+
+    def n_mflat(self, M, k):
+        return self.ev(M).flatten()[k]
+
+    def n_miter(self, M, axis, i, style):
+        m = self.ev(M)
+        return m[i, :] if axis == "row" else m[:, i]
 
     def n_dot(self, A, B, style):
         return self.ev(A) @ self.ev(B)
